@@ -333,6 +333,14 @@ class Tr:
             self.refuse(e, f"arguments do not fit the signature ({exc})")
         return dict(ba.arguments)
 
+    def positional(self, e, obj, n, what):
+        """the first n parameters of the real callee, by position (their names are free), nothing else given"""
+        ba = self.bound_args(e, obj)
+        params = list(inspect.signature(obj).parameters)[:n]
+        if len(params) != n or set(ba) != set(params):
+            self.refuse(e, f"{what} expected")
+        return [ba[p] for p in params]
+
     def call_expr(self, e, binds):
         G = self.gen
         f = e.func
@@ -371,11 +379,9 @@ class Tr:
             self.need_env(e)
             return "(e_new_machine E)", "MACH"
         if obj is G.obj["create_dataset_from_inputs"]:
-            ba = self.bound_args(e, obj)
-            if set(ba) != {"input_config"}:
-                self.refuse(e, "create_dataset_from_inputs(input_config=...) expected (no roi)")
+            (a,) = self.positional(e, obj, 1, "create_dataset_from_inputs(input_config) without roi")
             self.need_env(e)
-            return self.partial(binds, f"e_create_dataset E {self.sub(ba['input_config'], binds, 'JV')}"), "IMG"
+            return self.partial(binds, f"e_create_dataset E {self.sub(a, binds, 'JV')}"), "IMG"
         for spec in G.done:
             if obj is G.pyfun[spec[1]]:
                 if spec[3] == "FX":
@@ -568,9 +574,10 @@ class Tr:
                 self.refuse(st, "tuple target")
             names = [x.id for x in target.elts]
             if isinstance(value, ast.Call) and self.resolve(value.func) is G.obj["run"]:
-                ba = self.bound_args(value, G.obj["run"])
-                if set(ba) != {"pandora_machine", "img_left", "img_right", "cfg"} or len(names) != 2:
+                if len(names) != 2:
                     self.refuse(st, "left, right = run(machine, img_left, img_right, cfg) expected")
+                a_m, a_l, a_r, a_c = self.positional(value, G.obj["run"], 4, "run(machine, img_left, img_right, cfg)")
+                ba = {"pandora_machine": a_m, "img_left": a_l, "img_right": a_r, "cfg": a_c}
                 for k in ("pandora_machine", "cfg"):
                     if not isinstance(ba[k], ast.Name):
                         self.refuse(st, f"the {k} given to run must be a variable (run modifies it)")
@@ -636,8 +643,9 @@ class Tr:
         name = target.id
         # cfg = check_conf(user_cfg, machine)
         if isinstance(value, ast.Call) and self.resolve(value.func) is G.obj["check_conf"]:
-            ba = self.bound_args(value, G.obj["check_conf"])
-            if set(ba) != {"user_cfg", "pandora_machine"} or not isinstance(ba["pandora_machine"], ast.Name):
+            a_u, a_m = self.positional(value, G.obj["check_conf"], 2, "check_conf(user_cfg, machine)")
+            ba = {"user_cfg": a_u, "pandora_machine": a_m}
+            if not isinstance(ba["pandora_machine"], ast.Name):
                 self.refuse(st, "cfg = check_conf(user_cfg, machine variable) expected")
             binds = []
             u = self.sub(ba["user_cfg"], binds, "JV")
